@@ -135,6 +135,49 @@ def _no_fixed_point_default_quiet(repo: Repo) -> bool:
         return False
 
 
+def raises_only_under_flag(repo: Repo, func: str, exc: str, flag: str) -> bool:
+    """Every `raise <exc>` of the function lies on the true side of an `if <x>.<flag>` test, or after an
+    `if not <x>.<flag>: return ...` at the top level of the function (an early return for objects without the flag)."""
+    rel, qual = func.split("::", 1)
+    try:
+        fn = repo.func(rel, qual)
+    except AnalysisError:
+        return False
+    parents: dict[int, ast.AST] = {}
+    for n in ast.walk(fn):
+        for c in ast.iter_child_nodes(n):
+            parents[id(c)] = n
+
+    def reads_flag(t: ast.AST) -> bool:
+        return any(isinstance(x, ast.Attribute) and x.attr == flag for x in ast.walk(t))
+
+    guarded_from = None
+    for i, st in enumerate(fn.body):
+        if isinstance(st, ast.If) and isinstance(st.test, ast.UnaryOp) and isinstance(st.test.op, ast.Not) and reads_flag(st.test.operand) and not st.orelse \
+                and isinstance(st.body[-1], (ast.Return, ast.Raise, ast.Continue)):
+            guarded_from = i
+            break
+    raises = [n for n in ast.walk(fn) if isinstance(n, ast.Raise) and n.exc is not None and ast.unparse(n.exc).split("(")[0].split(".")[-1] == exc]
+    if not raises:
+        return False
+    for r in raises:
+        ok = False
+        cur: ast.AST = r
+        top = r
+        while id(cur) in parents:
+            par = parents[id(cur)]
+            if isinstance(par, ast.If) and any(cur is b for b in par.body) and reads_flag(par.test) and not (isinstance(par.test, ast.UnaryOp) and isinstance(par.test.op, ast.Not)) and not isinstance(par.test, ast.BoolOp):
+                ok = True
+            if par is fn:
+                top = cur
+            cur = par
+        if not ok and guarded_from is not None and top in fn.body and fn.body.index(top) > guarded_from:  # type: ignore[arg-type]
+            ok = True
+        if not ok:
+            return False
+    return True
+
+
 def abstract_hook(repo: Repo, func: str) -> bool:
     """`raise NotImplementedError` in method M of class C: unreachable when neither C nor any subclass that inherits
     C's M is ever instantiated in the package (every constructor call names a class that overrides M)."""
@@ -371,6 +414,10 @@ def run_entry(check: Check, repo: Repo, entry: str, allowed: set[str], rule: str
             # rules of the grammar and over grammars whose references are defined (the same reason as the triage
             # entries for Parser.parse / Identifier.parse, stated for the construct instead of for one spelling)
             check.oblige(rule, site.func, f"{site.expr}: a rule looked up by name; unknown start rules and undefined references are outside the property's quantifier", True)
+            continue
+        if site.exc == "RuntimeError" and site.kind == "raise" and site.func.startswith("src/pest/grammar/optimizer.py::") and _no_fixed_point_default_quiet(repo) \
+                and (referenced_only_under_flag(repo, site.func, "fixed_point") or raises_only_under_flag(repo, site.func, "RuntimeError", "fixed_point")):
+            check.oblige(rule, site.func, "raise RuntimeError: reached only for a step that sets fixed_point (the function is referenced, or the raise lies, under a test of that flag), and no default step sets it (both premises re-checked)", True)
             continue
         if site.exc == "NotImplementedError" and site.kind == "raise" and abstract_hook(repo, site.func):
             check.oblige(rule, site.func, "raise NotImplementedError in a hook that every class the package instantiates overrides (the class that holds it is never instantiated itself)", True)
